@@ -5,6 +5,21 @@ HERE = os.path.dirname(os.path.dirname(os.path.abspath(__file__)))
 
 TECH = "deterministic simulation with fault injection"
 CLAIMED = {
+ "C02": dict(
+   level="exploration", design="5/C02",
+   text="Seeded search over message sequences x segmentations of the byte stream (every byte, cuts at header offsets, message boundary +-1, read-size multiples +-1, random k-cuts) x segment delays x partial recv()s, for the controller-side Connection.read under the real OpenFlow_01_Task and the switch-side OFConnection.read under the real IO loop; after every segment the delivered (type, xid) sequence must equal the completely arrived messages and the receive buffer the incomplete tail.",
+   note="TCP is modelled reliable and ordered; no spurious readiness; delivery observed at handler invocation; message contents are not compared (C01 not claimed).",
+   technique=TECH + ": network-delivery-schedule search with a prefix-exactness invariant after every segment"),
+ "C05": dict(
+   level="exploration", design="5/C05",
+   text="Seeded search over histories of subscribe (priority, once, weak, by name, autobind), unsubscribe (handler, eid, (type,eid), eid+type), raise (instance/class form, with and without error suppression) and handler scripts incl. re-entrant subscribe/unsubscribe/raise, owner death + gc; a reference model ordered by (-priority, sequence) with a stack of in-progress deliveries checks order, exactly-once, halting, removal, rejection of undeclared types, listener counts, and termination by a deterministic invocation budget.",
+   note="One live subscription per (handler, source, type); where the statement is silent (handlers added or removed by other handlers mid-delivery) both behaviours are accepted; single thread, no clock.",
+   technique=TECH + ": operation-history search incl. re-entrancy and owner-death faults against a delivery reference model"),
+ "C09": dict(
+   level="exploration", design="5/C09",
+   text="Seeded search over interleavings of handshake replies with asynchronous switch messages, connection loss (EOF/reset) at every point, and reconnects of a datapath before its stale connection closes, for up to 3 scripted switch connections over 2 dpids against the real controller stack; after every settled step ConnectionUp/Down counts and order, deferred port-status order, the registry and the socket reached by sendToDPID are compared with a lifecycle model.",
+   note="Announcements and losses are separated by a settle so that 'most recent' is well defined; duplicate features replies / foreign barrier xids not generated; one open known finding (older live connection not restored).",
+   technique=TECH + ": interleaving and connection-loss search against a lifecycle/registry model"),
  "C08": dict(
    level="exploration", design="5/C08",
    text="Seeded search over permutations of register / call_when_ready / listen_to_dependencies over up to 5 components and 5 waiters (dependency sets in every accepted form, chained registrations, failing callbacks), goUp with 0-3 deferral holders released in every order and manner, quit before/after goUp once or twice; a fresh real POXCore per run; oracle checks exactly-once, never-early, fired-inside-the-completing-call, containment, wiring, and the GoingUp/Up/GoingDown/Down sequence.",
